@@ -386,7 +386,7 @@ func checkCoercer(p *Program, r *Report, pv *Prov, fn *ssa.Function) *ssa.Global
 	// find the range over the parameter
 	var rng *ssa.Range
 	var next *ssa.Next
-	var appends []*ssa.Call
+	var appends, builderWrites []*ssa.Call
 	for _, b := range fn.Blocks {
 		for _, in := range b.Instrs {
 			switch x := in.(type) {
@@ -401,6 +401,11 @@ func checkCoercer(p *Program, r *Report, pv *Prov, fn *ssa.Function) *ssa.Global
 			case *ssa.Call:
 				if bi, ok := x.Common().Value.(*ssa.Builtin); ok && bi.Name() == "append" {
 					appends = append(appends, x)
+				}
+				// the same accumulation written with a strings.Builder / bytes.Buffer: b.WriteRune(r)
+				if g := staticCallee(x.Common()); g != nil && fnName(g) == "(*bytes.Buffer).WriteRune" {
+					appends = append(appends, x)
+					builderWrites = append(builderWrites, x)
 				}
 			}
 		}
@@ -440,7 +445,13 @@ func checkCoercer(p *Program, r *Report, pv *Prov, fn *ssa.Function) *ssa.Global
 	seen := map[*ssa.BasicBlock]int{}
 	for i, ap := range appends {
 		c := fmt.Sprintf("%s#append%d", cn, i)
-		elems, ok := variadicArgs(ap.Common().Args[1])
+		var elems []ssa.Value
+		ok := false
+		if _, isB := ap.Common().Value.(*ssa.Builtin); isB {
+			elems, ok = variadicArgs(ap.Common().Args[1])
+		} else {
+			elems, ok = []ssa.Value{ap.Common().Args[1]}, true // b.WriteRune(x)
+		}
 		if !ok || len(elems) != 1 {
 			r.Undec("C10.R2", c, p.Pos(ap.Pos()), "append of an unrecognised element list")
 			continue
@@ -461,6 +472,48 @@ func checkCoercer(p *Program, r *Report, pv *Prov, fn *ssa.Function) *ssa.Global
 	r.Check(oneEach, "C10.R2", cn+"#one-rune-per-rune", pos, "each iteration appends exactly one rune and returns to the loop header", "an iteration may append zero or several runes")
 	// return value is string(accumulated runes)
 	okRet := true
+	if len(builderWrites) > 0 {
+		// builder form: every return is b.String() of the one builder all writes go to, which receives nothing else
+		var buf ssa.Value
+		for _, w := range builderWrites {
+			if buf == nil {
+				buf = w.Common().Args[0]
+			} else if buf != w.Common().Args[0] {
+				okRet = false
+			}
+		}
+		if len(builderWrites) != len(appends) {
+			okRet = false // mixed accumulation
+		}
+		for _, ret := range Returns(fn) {
+			c, ok := isCallTo(ret.Results[0], "(*bytes.Buffer).String")
+			if !ok || c.Common().Args[0] != buf {
+				okRet = false
+			}
+		}
+		if al, ok := buf.(*ssa.Alloc); ok {
+			for _, ref := range *al.Referrers() {
+				c, isCall := ref.(*ssa.Call)
+				if !isCall {
+					continue
+				}
+				g := staticCallee(c.Common())
+				if g == nil {
+					okRet = false
+					continue
+				}
+				switch fnName(g) {
+				case "(*bytes.Buffer).WriteRune", "(*bytes.Buffer).String", "(*bytes.Buffer).Grow", "(*bytes.Buffer).Len":
+				default:
+					okRet = false
+				}
+			}
+		} else {
+			okRet = false
+		}
+		r.Check(okRet, "C10.R2", cn+"#result", pos, "result is the contents of the builder that receives exactly the runes above", "result is not the string of the accumulated runes")
+		return table
+	}
 	for _, ret := range Returns(fn) {
 		cv, ok := ret.Results[0].(*ssa.Convert)
 		if !ok {
